@@ -9,6 +9,9 @@ OPS = '{"tgopen", "close", "spawn", "yield", "wait", "raise"}'
 OPSS = '{"tgopen", "close", "spawn", "start", "started", "yield", "wait", "raise"}'
 OPSX = '{"tgopen", "close", "spawn", "yield", "wait", "raise", "open", "cancel"}'
 FAMILY = family("C02", [
+    # a sibling that sits in shielded clean-up when the group is cancelled must still be cancelled afterwards
+    ModelCfg("c02-n2o4e0-shield", consts(2, 4, 0, '{"tgopen", "spawn", "raise", "open", "cancel", "yield", "wait"}',
+                                         shields="{0, 1}", env="{}"), emit=True, check=False, max_scenarios=8000),
     # start() racing with a failing sibling (exception handed over through the start future)
     ModelCfg("c02-n3o3e0-start", consts(3, 3, 0, '{"tgopen", "spawn", "start", "yield", "raise"}', env="{}"),
              emit=True, check=False, max_scenarios=8000),
